@@ -125,6 +125,7 @@ SIM_CHECKS = {
         'cells': 'c09',
         'ub': True,
         'bitmap': True,
+        'gen_stage': True,
         'rule': ('Each evaluation is one seeded run of the whole simulated device in the ASan+UBSan build: tz clients of every '
                  'kind (incl. manual / error), queries of every kind with valid, boundary, far out-of-range, sentinel, INT32-extreme '
                  'and invalid-component arguments, failing queries repeated 1-3 times and interleaved with valid ones, save / reboot / '
@@ -556,6 +557,14 @@ def run_sim_check(prop, tier, verif_seed, spec=None, runs_override=None):
                 violations += 1
                 exit_code = 1
                 break
+    gen_zones = None
+    if spec.get('gen_stage') and exit_code == 0 and not runs_override:
+        from . import genm3 as G
+        gen_zones, gpath = G.sweep(prop, tier, verif_seed)
+        if gpath:
+            print('VIOLATION property=%s replay=%s' % (prop, gpath))
+            violations += 1
+            exit_code = 1
     py_half = None
     if spec.get('py_stage') and exit_code == 0:
         from pysim import check as P
@@ -630,6 +639,8 @@ def run_sim_check(prop, tier, verif_seed, spec=None, runs_override=None):
         cov['bounded_exhaustive_enumeration'] = enum14
     if sweep08:
         cov['exhaustive_cached_year_pair_sweep'] = sweep08
+    if gen_zones:
+        cov['compiler_generated_zone_sweep'] = gen_zones
     doc = {
         'property_id': prop, 'tier': tier, 'seed': verif_seed, 'level': 'exploration',
         'coverage': cov, 'assumptions': spec['assumptions'], 'wall_s': round(wall, 2),
